@@ -15,6 +15,14 @@ Oracles (written from the property text, never from the model):
                         name / default == the documented instance; RIM / SparseLinearMI / KernelRIM train with
                         KL one-vs-all
   kauri                 Kauri(kernel=name) == Kauri(kernel="precomputed") given pairwise_kernels(X, metric=name)
+  param_order           kernel_params / metric_params dictionaries in every key order and with every subset of the keys
+                        (poly, polynomial, sigmoid; squared for euclidean / l2): affinity of the GEMINI object and of the
+                        estimator's GEMINI == scikit-learn called with keywords (and the kernel's closed form), then
+                        the whole named_vs_precomputed comparison
+  cloned                sklearn clone, clone of clone, deepcopy, pickle, get_params round trips of an unfitted estimator
+                        (GEMINI instances carrying kernel_params / metric_params / epsilon / callables, convenience
+                        parameters, names): same GEMINI, same affinity (== scikit-learn's), same fit and score as the
+                        original and as the precomputed route
 """
 import json
 
